@@ -339,7 +339,11 @@ class TerminalDevice(Device):
             if len(values) != len(var_types):
                 return False
 
-            for v, vtype in reversed(list(zip(values, var_types))):
+            # convert all the fields before pushing anything: a bad
+            # field must not leave the values of the fields after it
+            # on the stack
+            converted = []
+            for v, vtype in zip(values, var_types):
                 if vtype == 1:  # INTEGER
                     try:
                         v = int(v)
@@ -347,7 +351,7 @@ class TerminalDevice(Device):
                         return False
                     if v < -32768 or v > 32767:
                         return False
-                    self.cpu.push(CellType.INTEGER, v)
+                    converted.append((CellType.INTEGER, v))
                 elif vtype == 2:  # LONG
                     try:
                         v = int(v)
@@ -355,7 +359,7 @@ class TerminalDevice(Device):
                         return False
                     if v < -2**31 or v >= 2**31:
                         return False
-                    self.cpu.push(CellType.LONG, v)
+                    converted.append((CellType.LONG, v))
                 elif vtype == 3:  # SINGLE
                     try:
                         v = float(v)
@@ -363,7 +367,7 @@ class TerminalDevice(Device):
                         return False
                     if not expr.Type.SINGLE.can_hold(v):
                         return False
-                    self.cpu.push(CellType.SINGLE, v)
+                    converted.append((CellType.SINGLE, v))
                 elif vtype == 4:  # DOUBLE
                     try:
                         v = float(v)
@@ -371,14 +375,18 @@ class TerminalDevice(Device):
                         return False
                     if not expr.Type.DOUBLE.can_hold(v):
                         return False
-                    self.cpu.push(CellType.DOUBLE, v)
+                    converted.append((CellType.DOUBLE, v))
                 elif vtype == 5:  # STRING
-                    self.cpu.push(CellType.STRING, v)
+                    converted.append((CellType.STRING, v))
                 else:
                     self._device_error(
                         error_code=Device.Error.BAD_ARG_VALUE,
                         error_msg=f'Unknown var type {vtype} for INPUT',
                     )
+
+            # the value for the first variable goes on top
+            for cell_type, v in reversed(converted):
+                self.cpu.push(cell_type, v)
 
             return True
 
